@@ -20,7 +20,7 @@ RULES = {
     'R6': 'iter_create stores no unreferenced node pointer in the iterator: every node-pointer field is NULL, the map header (never freed), or referenced before the function returns',
     'R7': 'a node that iterators may be parked on stays linked while referenced: where the advance follows the parked node\'s own links (hashtable), the node is unlinked only at its last dereference (in the destroy function reached with refcount 0) or at map teardown',
 }
-FLOORS = {'R1': 6, 'R2': 3, 'R3': 2, 'R4': 6, 'R5': 2, 'R6': 4, 'R7': 2, 'R8': 8, 'R9': 1}
+FLOORS = {'R1': 6, 'R2': 3, 'R3': 2, 'R4': 6, 'R5': 2, 'R6': 4, 'R7': 2, 'R8': 9, 'R9': 1}
 
 IT = {
     'hashtable': dict(next='hashtable_iter_next', free='hashtable_iter_free', deref='hashtable_node_deref', node='hash_node',
@@ -467,6 +467,14 @@ def r8(ctx):
             bad = [x for x in tg if nn.uncut_path(x, unmarked_or_all) is not None]
             ctx.check('R8', 'trie:iterate-skips-removed', not bad, bad[0] if bad else tg[0], 'iteration steps over entries marked removed (unless asked for all nodes)',
                       'a second iterator returns an entry that has been removed')
+            # the first step of a prefix iterator parks on the prefix root itself: only if that entry is not marked either
+            ti = prog.fn('trie_iter_next')
+            starts = [st for st in ti.stores(field=m['cur'][1], rec=m['cur'][0]) if last_field(unwrap(st.rhs)) == (m['cur'][0], 'root')]
+            if not starts:
+                raise AnalysisBroken('trie_iter_next: the prefix-root start was not found')
+            bad = [x for x in starts if ti.uncut_path(x, unmarked) is not None]
+            ctx.check('R8', 'trie:prefix-start-skips-removed', not bad, bad[0] if bad else starts[0], 'a prefix iterator does not start on an entry marked removed',
+                      'a prefix iterator created while another iterator stands on a removed entry returns that removed key')
 
 
 def r9(ctx):
